@@ -168,6 +168,8 @@ type Sim struct {
 	chans       map[unsafe.Pointer]*chanState
 	shadow      map[unsafe.Pointer]*shadowVar
 	atomVC      map[unsafe.Pointer]vclock
+	elems       map[unsafe.Pointer]*shadowVar // slice elements
+	slab        []shadowVar
 	races       []Race
 	raceSeen    map[string]bool
 	probes      map[string]int
@@ -263,6 +265,7 @@ func Run(cfg Config, root func()) *Result {
 		objHash:   map[int]uint64{},
 		chans:     map[unsafe.Pointer]*chanState{},
 		shadow:    map[unsafe.Pointer]*shadowVar{},
+		elems:     map[unsafe.Pointer]*shadowVar{},
 		raceSeen:  map[string]bool{},
 		probes:    map[string]int{},
 		done:      make(chan struct{}, 1),
